@@ -144,8 +144,10 @@ def L(*vals):
     return ('list', list(vals))
 
 
-STR_PATS_BASIC = ['a', 'ab', 'a*', '*a', '*a*', '*', 'ia', 'iA*', 'i*b', 'i*aB*', '', '"a"', "'*'", '"a\'', "i'a\"", '"', "i'"]
-STR_PATS_MORE = ['b*', '*b', '*ab*', 'ab*', '*ba', 'iab', '**', 'i*', 'i', '*a*b', 'a*b']
+STR_PATS_BASIC = ['a', 'ab', 'a*', '*a', '*a*', '*', 'ia', 'iA*', 'i*b', 'i*aB*', '', '"a"', "'*'", '"a\'', "i'a\"", '"', "i'",
+                  # blanks at the edges of a pattern are part of the text
+                  ' a', ' a*']
+STR_PATS_MORE = ['b*', '*b', '*ab*', 'ab*', '*ba', 'iab', '**', 'i*', 'i', '*a*b', 'a*b', 'a ', '* a']
 REGEX_PATS = ['?a', '?ab', 'i?a', '?^a', '?b$', 'i?^\\D+$', 'i?\\Sa', '?\\D']
 REGEX_REWRITE = ['?.*a', '?a.*', '?.*a.*', '?.*', '?.*.*', '?.*a|b', '?a|b.*', '?.*?a', '?a\\.*', '?.*+a', 'i?.*A',
                  # anchored wildcards are not redundant: `.` does not cross a line feed
@@ -495,7 +497,7 @@ MUST = {'single/"a\'', 'single/i\'a"', 'single/"',
         'list-mixed/*,>1', 'list-mixed/>=1,<=5', 'quant-short/all:>=1,<=5', 'modifier/str(f) float constant',
         'regex/i?^\\D+$', 'regex/i?\\Sa', 'modifier/{not(f), not(g), h}',
         'modifier/multi-word keys', 'modifier/all(multi-word key)', 'modifier/int(multi-word key)',
-        'modifier/wide-space key', 'modifier/str(wide-space key)', 'scalar/u64max', 'scalar/i64max+1', 'regex-rewrite/of2 twins', 'regex-rewrite/of2 twins+1', 'regex-rewrite/all twins', 'regex-rewrite/i?^ks', 'regex-rewrite/i?ks$',
+        'modifier/wide-space key', 'modifier/str(wide-space key)', 'scalar/u64max', 'scalar/i64max+1', 'single/ a', 'single/a ', 'single/ a*', 'regex-rewrite/of2 twins', 'regex-rewrite/of2 twins+1', 'regex-rewrite/all twins', 'regex-rewrite/i?^ks', 'regex-rewrite/i?ks$',
         'shake/A or B or C one text two kinds', 'shake/seq one text two kinds', 'shake/seq one text two kinds i', 'quant-ident/all(tabled)', 'quant-ident/of(tabled,2)', 'quant-ident/all(part-tabled)', 'quant-ident/of(part-tabled,2)'}
 
 
